@@ -68,6 +68,18 @@ CLAIMS = {
               "(absorbing state in the initial support is expanded) is reported as KNOWN-FINDING; two defects found by this check "
               "were repaired in /repo (zero-probability successors / initial states raising KeyError)"),
         ref='DESIGN.md section 4 C06'),
+    'C07': dict(
+        text=("state_estimator, predictive_observation_dist, their vectorised versions, BeliefMDP and the value-based policy's "
+              "agent-state update are executed with the belief a SYMBOLIC point of the simplex (zero components allowed, so "
+              "`prob == 0` branches fork) on POMDPs with action- and state-dependent observation kernels containing zeros. z3 "
+              "proves for every action/observation: posterior * P(o) = unnormalised Bayes numerator (cross-multiplied), posterior "
+              "normalised or empty exactly for impossible observations, zero-mass states absent, predictive distribution = exact "
+              "marginal summing to 1, dict and vectorised versions equal, belief-MDP branches normalised with normalised beliefs "
+              "whose weighted mean is the one-step state prediction, reward = belief expectation, absorbing iff all mass on "
+              "absorbing states. A second harness takes beliefs from a menu and makes one observation row symbolic."),
+        note=("3 POMDP skeletons (2-3 states, 2 actions, 2-3 observations, absorbing state, revealing kernel); transition kernels "
+              "concrete; beliefs with symbolic entries are not merged when equal (asserted quantities are invariant under merging)"),
+        ref='DESIGN.md section 4 C07'),
     'C11': dict(
         text=("For every support size within the bound and every distribution kind, the probability-calculus laws are "
               "proved for ALL probability/weight/score values at once (symbolic reals, zero entries included), by running "
